@@ -405,12 +405,18 @@ let exec (op : string) : unit =
             let tag = List.hd toks in
             if !sdepth < 1 then tag ^ " Err DepthTooLow"
             else begin
-            (* the hypothesis of the closed search theorems (Closed.C07_closed, C08_closed, C09_closed) *)
-            if not (soundb tbl rk bs (nat_of_int !sdepth) b) then
-              spec_fail (Printf.sprintf "DOMAIN soundb %d (search invariant Reach.Sound of the closed theorems) is false in [%s]: compared with the oracle all the same" !sdepth (snap_of b));
-            (* depth >= 4: full-window alpha-beta per root move, equal to the plain minimax list by
-               Closed.root_values_ab_eq (pinned in props/C08.v); below that the plain minimax itself *)
-            let rv = if !sdepth >= 4 then root_values_ab tbl rk bs (nat_of_int !sdepth) b
+            (* the hypothesis of the closed search theorems: SoundW (ReachWide: C07_wide, C08_wide,
+               root_values_ab_eq_wide) for the cache-free statements, the narrower Sound (Closed:
+               C09_closed, the cached statements) where the clocks cannot reach a draw *)
+            let inw = soundWb tbl rk bs (nat_of_int !sdepth) b in
+            if not inw then
+              spec_fail (Printf.sprintf "DOMAIN soundWb %d (search invariant ReachWide.SoundW of the closed theorems) is false in [%s]: compared with the oracle all the same" !sdepth (snap_of b))
+            else if not (soundb tbl rk bs (nat_of_int !sdepth) b) then
+              spec_fail (Printf.sprintf "DOMAINC soundb %d (Reach.Sound, the domain of the cache theorems) is false in [%s]" !sdepth (snap_of b));
+            (* depth >= 4 inside the wide domain: full-window alpha-beta per root move, equal to the plain
+               minimax list by ReachWide.root_values_ab_eq_wide (pinned in props/C08.v); otherwise the
+               plain minimax itself *)
+            let rv = if !sdepth >= 4 && inw then root_values_ab tbl rk bs (nat_of_int !sdepth) b
                      else root_values tbl rk bs (nat_of_int !sdepth) b in
             match rv with
               | Ok [] -> tag ^ " Err NoAvailableMoves"
